@@ -683,9 +683,9 @@ func (p *pp) printArg(arg interface{}, verb rune)
   -- error to wrap, and from there on the operand is printed with the verb v (also where no method applies and
   -- the value is rendered by reflection); any other %w keeps its verb and ends as a bad verb. Stated where the operand
   -- is recorded, i.e. about the operand AFTER Safe()/Unsafe() have been taken off ("possibly wrapped in Safe/Unsafe")
-  assert [C15] old(verb) == 119 && hasType(arg, "error") && old(p.wrapErrs) && isnil(old(p.wrappedErr)) ==> verb == 118 && p.wrapErrs && p.wrappedErr == arg before "p.arg = arg"
-  assert [C15] old(verb) == 119 && !(hasType(arg, "error") && old(p.wrapErrs) && isnil(old(p.wrappedErr))) ==> verb == 119 before "p.arg = arg"
-  assert [C15] old(verb) != 119 ==> verb == old(verb) before "p.arg = arg"
+  assert [C15,C17] old(verb) == 119 && hasType(arg, "error") && old(p.wrapErrs) && isnil(old(p.wrappedErr)) ==> verb == 118 && p.wrapErrs && p.wrappedErr == arg before "p.arg = arg"
+  assert [C15,C17] old(verb) == 119 && !(hasType(arg, "error") && old(p.wrapErrs) && isnil(old(p.wrappedErr))) ==> verb == 119 before "p.arg = arg"
+  assert [C15,C17] old(verb) != 119 ==> verb == old(verb) before "p.arg = arg"
   assume [C08] ref(f) != ref(p.buf.buf) before "defer p.startPreRedactable().restore()" #2
   assume [C08] ref(f) != ref(p.buf.buf) before "p.buf.Write([]byte(f))"
   requires B(p) && WP(p.fmt)
